@@ -22,13 +22,37 @@ Fixpoint split_live (i : nat) (l : list ditem) : list ditem * list ditem :=
 Definition last_id (l : list ditem) : option id := match rev l with x :: _ => Some (did x) | [] => None end.
 Definition head_id (l : list ditem) : option id := match l with x :: _ => Some (did x) | [] => None end.
 
-(* the unit a local insertion at live index i creates: origin = the i-th live unit (and whatever
-   non-live items precede the insertion point are left of it), right origin = the item that follows *)
-Definition local_op (key : seqkey) (l : list ditem) (i : nat) (newid : id) (c : ucontent) : op :=
+(* Where a local insertion at live index i lands. Both lookups of the implementation first consume i live
+   units (passing over whatever is not live on the way) and then keep moving over DELETED items:
+   text.rs `find_position` stops when the index is reached and `Text::insert` then forwards `while
+   right.is_deleted()`; `BlockIter::try_forward` (arrays, XML children) keeps going while `can_forward`
+   sees a deleted or non-countable item once the length is used up (XML children take a third route, see
+   local_op_direct below). So the new unit lands after the
+   tombstones that follow the i-th live unit, immediately before the next item that is not deleted. *)
+Fixpoint skip_deleted (l : list ditem) : list ditem * list ditem :=
+  match l with
+  | x :: r => if d_del x then let '(a, b) := skip_deleted r in (x :: a, b) else ([], l)
+  | [] => ([], [])
+  end.
+Definition split_gap (i : nat) (l : list ditem) : list ditem * list ditem :=
   let '(a, b) := split_live i l in
+  let '(d, b') := skip_deleted b in (a ++ d, b').
+
+(* the unit a local insertion at live index i creates: origin = the last item left of the gap, right
+   origin = the item that follows it *)
+Definition local_op (key : seqkey) (l : list ditem) (i : nat) (newid : id) (c : ucontent) : op :=
+  let '(a, b) := split_gap i l in
   mkop newid (last_id a) (head_id b) (fst key) (snd key) c.
 Definition local_insert (key : seqkey) (l : list ditem) (i : nat) (newid : id) (c : ucontent) : list ditem :=
   yata_insert l (mkditem (local_op key l i newid c) false).
+
+(* XML children are inserted through Branch::insert_at / index_to_ptr, which does NOT move on over tombstones:
+   index 0 lands at the very start, index i > 0 directly after the i-th live unit *)
+Definition local_op_direct (key : seqkey) (l : list ditem) (i : nat) (newid : id) (c : ucontent) : op :=
+  let '(a, b) := split_live i l in
+  mkop newid (last_id a) (head_id b) (fst key) (snd key) c.
+Definition local_insert_direct (key : seqkey) (l : list ditem) (i : nat) (newid : id) (c : ucontent) : list ditem :=
+  yata_insert l (mkditem (local_op_direct key l i newid c) false).
 
 (* delete n live units starting at live index i *)
 Fixpoint local_delete (i n : nat) (l : list ditem) : list ditem :=
